@@ -52,6 +52,10 @@ DML_CATALOG = dict(integrations=['int1', 'int2', 'files', 'views'], default_name
                                        dict(name='tp', integration_name='mindsdb', timeseries=True, order_by_column='ts', group_by_columns=['g'], window=2)])
 
 
+OTHER_DIALECT = ['SELECT * FROM int1.t1 OFFSET 5', 'SELECT a FROM int1.t1 WHERE a IN (SELECT b FROM int1.t2 OFFSET 2)', 'SELECT * FROM int1.t1 JOIN int2.t2 ON t1.id = t2.id OFFSET 1',
+                 'SELECT * FROM int1.t1 ORDER BY a OFFSET 3', 'SELECT * FROM t1 OFFSET 1', 'SELECT a FROM int1.t1 GROUP BY a OFFSET 1']
+
+
 def ts_queries():
     out = []
     for (cl, cond), (pl, part), side, lim, extra in itertools.product(predq.TS_CONDS, predq.TS_PART, ('right', 'left'), ('', ' LIMIT 1'),
@@ -127,6 +131,19 @@ class CHECK(Check):
                 out.append(('gsx', numbered, 'api'))
                 mixed = ' '.join(('int1' if i % 2 else 'pred') if t == 'ID' else m.lexeme[t] for i, t in enumerate(s))
                 out.append(('gsx', mixed, 'pred_default'))
+        # trees the other two dialects can build (e.g. OFFSET without LIMIT, which the mindsdb grammar cannot write)
+        for d in ('sqlite', 'mysql'):
+            m2 = gsx.Model(d)
+            f2 = gsx.Families(m2, 1)
+            for s in sorted(set(f2.s0_pairs()) | set(f2.s0_edges())):
+                if s[0] not in ('SELECT', 'LPAREN', 'WITH', 'INSERT', 'UPDATE', 'DELETE', 'CREATE') or any(t not in m2.lexeme for t in s) or not m2.simulate(s)[0]:
+                    continue
+                text = ' '.join('int1' if (t == 'ID' and i % 3 == 0) else m2.lexeme[t] if t != 'ID' else 'c%d' % i for i, t in enumerate(s))
+                for cat in ('api', 'default_int1', 'pred_default'):
+                    out.append(('gsx:' + d, text, cat))
+        for sql in OTHER_DIALECT:
+            for cat in ('api', 'default_int1', 'no_default'):
+                out.append(('gsx:sqlite', sql, cat))
         for i in range(len(self.hcorpus)):
             out.append(('hist', i, None))
         return out
@@ -160,6 +177,8 @@ class CHECK(Check):
             return predq.ts_catalog(*cat)
         if kind == 'dml':
             return copy.deepcopy(DML_CATALOG)
+        if cat == 'api':
+            return dict(integrations=[{'name': 'int1', 'type': 'data', 'class_type': 'api'}, 'int2'], default_namespace='int1')
         return copy.deepcopy(GSX_CATALOGS[cat])
 
     def run(self, case):
@@ -167,7 +186,8 @@ class CHECK(Check):
         kind, sql, cat = case
         if kind == 'hist':
             return self.run_history(res, sql)
-        out = parsing.outcome(sql, 'mindsdb')
+        dialect = kind.split(':', 1)[1] if kind.startswith('gsx:') else 'mindsdb'
+        out = parsing.outcome(sql, dialect)
         if out.kind != 'ok' or not isinstance(out.value, PLANNABLE):
             res.count('not_plannable_input')
             return res
